@@ -968,9 +968,13 @@ class PolygonalROI(VertexROIBase):
         return np.dot(xs, dxy) * scl + x0, np.dot(ys, dxy) * scl + y0
 
     def center(self):
-        # centroid is more robust than mean, but
-        # for linear (1D) "polygons" centroid is not defined.
-        if self.area() == 0:
+        # centroid is more robust than mean, but for linear (1D) "polygons"
+        # (and any vertex set whose signed area cancels, e.g. a symmetric
+        # bow-tie) centroid is not defined. The area is compared to the extent
+        # of the polygon so that rounding noise (e.g. after a rotation) is not
+        # mistaken for a finite area.
+        extent = max(np.ptp(self.vx), np.ptp(self.vy))
+        if self.area() <= 1e-12 * extent ** 2:
             return self.mean()
         else:
             return self.centroid()
